@@ -307,7 +307,7 @@ def r13_3_by_name(ctx):
                     r.fail('%s:zip-params-with-pairs' % fi.key, fi.loc(n), '%s pairs constructor parameters with mapping pairs by position' % fi.qual)
     r.ok('%d functions of loader/recognizer/constructors scanned: no positional access to mapping pairs' % n_fn)
     cf = fn(P, S.CTOR + '__call__')
-    inits = [c for c in cf.calls('__init__') if cf.live(c)]
+    inits = [c for _, c, _ in S.init_sites(P)]
     r.check(bool(inits) and all(not c.args and all(k.arg is None for k in c.keywords) for c in inits), '__init__ is called with ** keywords only',
             cf.key('init-by-name'), cf.loc(), '__init__ receives positional arguments')
     na = fn(P, H.NODE + 'get_attribute')
